@@ -41,11 +41,14 @@ enum {
 	F5_DELAY150,
 	F5_STALL150, // 150 ms pass, repliers do not even read
 	F6_NOBODY150, // all repliers gone for 150 ms, then a new one
+	F3_ANSWER_A,  // repliers read; only request A is answered (B's reply is lost)
+	F3_ANSWER_B,  // ... only request B
+	F3_ANSWER_A_EARLY, // a replier answers A as soon as it has read it and reads no further
 	F_NLETTER
 };
 static const char *FN[] = { "end", "F1all", "F1holder", "F2unread", "F3silent",
 	"F3silent+conn", "F4unknown", "F4stale", "F4nobit", "F4garbage", "D50",
-	"D150", "stall150", "F6nobody150" };
+	"D150", "stall150", "F6nobody150", "F3answerA", "F3answerB", "F3answerA-early" };
 
 typedef struct scn {
 	const char *name;
@@ -102,6 +105,8 @@ static nng_socket S;
 static nng_ctx    CX[2];
 static nng_listener L;
 static int        g_fair;
+static int        g_answer_mask; // bit i: request i is answered although the suffix is not fair yet
+static int        g_stop_after_answer, g_stop_now;
 static int64_t    g_live_since; // -1 = no live connection
 static int64_t    g_tfair;
 static uint32_t   g_stale_id;
@@ -225,6 +230,11 @@ sighting(int ci, const uint8_t *p, size_t len, int reply)
 		    "[%s] %s seen on the wire at %lld although its reply was "
 		    "delivered at %lld",
 		    g_seq, r->tag, (long long) now, (long long) r->t_cb);
+	if (!reply && (g_answer_mask & (1 << (int) (r - R))) && outstanding(r)) {
+		reply = 1;
+		if (g_stop_after_answer)
+			g_stop_now = 1;
+	}
 	r->nwire++;
 	vs_log("t=%lld conn%d: %s id+%u (#%d)%s", (long long) now, ci, r->tag,
 	    id - g_id0, r->nwire, reply ? " -> answered" : "");
@@ -337,9 +347,15 @@ pump(void)
 			for (;;) {
 				const uint8_t *p;
 				size_t         len;
+				size_t         before = c->rd->len;
 				int            k = vp_next_frame(c->fd, c->rd, &p, &len);
-				if (k == 0)
+				if (k == 0) {
+					// bytes of an incomplete frame arrived: the sender may be
+					// able to go on writing now, look again after a settle
+					if (c->rd->len != before)
+						activity = 1;
 					break;
+				}
 				if (k < 0) {
 					close(c->fd);
 					c->live = 0;
@@ -350,13 +366,22 @@ pump(void)
 				}
 				activity = 1;
 				sighting(ci, p, len, g_fair);
+				if (g_stop_now)
+					break;
 			}
+			if (g_stop_now)
+				break;
 			if (c->live)
 				c->drained_at = vs_now();
 		}
-		if (!activity)
+		if (!activity || g_stop_now)
 			break;
 		vs_settle();
+	}
+	if (g_stop_now) {
+		g_stop_now = 0;
+		vs_settle();
+		return; // (the connection was deliberately not drained: no obligations yet)
 	}
 	obligations();
 }
@@ -365,10 +390,16 @@ pump(void)
 static void
 peek(int ci)
 {
-	static uint8_t buf[1 << 16];
+	static uint8_t buf[(1 << 17) + (1 << 16)];
 	conn          *c = &C[ci];
-	ssize_t        n = recv(c->fd, buf, sizeof(buf), MSG_PEEK);
-	size_t         o = 0;
+	// bytes the harness took off the socket earlier without looking at them (a replier that
+	// stopped reading in the middle) come first, then what is still in the kernel
+	size_t pre = c->rd->len;
+	memcpy(buf, c->rd->buf, pre);
+	c->rd->len = 0;
+	ssize_t n = recv(c->fd, buf + pre, sizeof(buf) - pre, MSG_PEEK);
+	n         = (n > 0 ? n : 0) + (ssize_t) pre;
+	size_t o  = 0;
 	int            unread = 0;
 	ioctl(c->fd, FIONREAD, &unread);
 	vs_log("t=%lld conn%d: closing with %d unread bytes", (long long) vs_now(), ci,
@@ -534,6 +565,18 @@ do_fault(int f)
 		close_all(1);
 		run_for(150, 0);
 		attach_conn();
+		break;
+	case F3_ANSWER_A:
+	case F3_ANSWER_B:
+		g_answer_mask = f == F3_ANSWER_A ? 1 : 2;
+		pump();
+		g_answer_mask = 0;
+		break;
+	case F3_ANSWER_A_EARLY:
+		g_answer_mask       = 1;
+		g_stop_after_answer = 1;
+		pump();
+		g_answer_mask = g_stop_after_answer = 0;
 		break;
 	default:
 		break;
